@@ -33,6 +33,18 @@ def instances(tier, seed):
         kw["key"] = "%s/%s" % (kw["op"], kw["cls"]) + ("/temp_list" if kw.get("temp_list") else "")
         out.append(kw)
 
+    # long thin chain (11 sites, 12 bonds, bond dimension 1-2): sweeps that run over more than ten bonds
+    n11 = 11
+    occ = [0, 1, 0, 0, 1, 0, 0, 0, 1, 0, 0]
+    left = [sum(occ[:i]) for i in range(n11 + 1)]
+    # (canonicalise asserts that the centre sits at the end the sweep starts from)
+    for centre, to_right in ((0, True), (n11 - 1, False)):
+        qn = [[[left[i] if i <= centre else 3 - left[i]]] for i in range(n11 + 1)]
+        for op in ("canonicalise", "compress"):
+            if op == "compress" and centre not in (0, n11 - 1):
+                continue
+            add(op=op, cls="mps", kinds=tuple(["e"] * n11), bonds=tuple([1] * (n11 + 1)), qn=qn, qntot=3, qnidx=centre, to_right=to_right)
+        add(op="canonicalise", cls="mps", kinds=tuple(["e"] * n11), bonds=tuple([1] * (n11 + 1)), qn=qn, qntot=3, qnidx=centre, to_right=to_right, stop=(8 if to_right else 2))
     for cls, kinds, bonds in cs.structures(tier):
         n = len(kinds)
         qntots = [1] if tier == "quick" else [0, 1, 2]
